@@ -2,10 +2,12 @@
 # usage: seedtest.sh <patch.diff> <ID> [<ID> ...]
 # Applies a seeded change to a scratch worktree of /repo and runs the named quick checks from a
 # scratch worktree of /verif (so /repo, /verif/evidence and /verif/replays stay untouched).
+# SEEDSLOT=<n> selects an independent pair of scratch worktrees (parallel runs).
 set -u
 patch=$(realpath "$1"); shift
-SV=/work/seedtest/verif
-SR=/work/seedtest/repo
+SLOT=${SEEDSLOT:-}
+SV=/work/seedtest/verif$SLOT
+SR=/work/seedtest/repo$SLOT
 git -C /verif worktree list | grep -q "$SV" || git -C /verif worktree add -q --detach "$SV" HEAD
 git -C "$SV" reset -q --hard; git -C "$SV" checkout -q -f --detach "$(git -C /verif rev-parse HEAD)"
 rm -rf "$SR"; git -C /repo worktree prune; git -C /repo worktree add -q --detach "$SR" HEAD
